@@ -29,7 +29,12 @@ for _prop in ('C12', 'C16'):
          name='%s/IsoDep.exchange' % _prop, requires=['self.clf.limit == self.miu + 1'],
          ensures=[('O-bn', 'self.pni == 0 or self.pni == 1')],
          raises={T4E: ['self.pni == 0 or self.pni == 1']},
-         loops={(EQ, 'For', 0): LoopSpec(invariant=['self.pni == 0 or self.pni == 1'],
+         # ISO/IEC 14443-4 7.5.3.1 rule B: the block number is toggled for EVERY received I-block / R(ACK) carrying
+         # the current number - the last block of a chain included: after each step the reader's number differs from
+         # the number of the block just received (a number left behind makes the next exchange accept a stale block
+         # or re-send an executed command)
+         loops={(EQ, 'For', 0): LoopSpec(invariant=['self.pni == 0 or self.pni == 1',
+                                                    '_k == 0 or (len(data) >= 1 and data[0] % 2 != self.pni)'],
                                          havoc={'self.pni': Int(), 'data': Bytes(1, None, mutable=True),
                                                 'response': Bytes(0, None, mutable=True),
                                                 'self.clf.sent': Fixed([]), 'self.clf.outcomes': Fixed([]),
@@ -55,7 +60,8 @@ for _prop in ('C12', 'C16'):
                                            havoc={'data': Bytes(0, None, mutable=True),
                                                   'self.clf.sent': Fixed([]), 'self.clf.outcomes': Fixed([]),
                                                   'self.clf.answers': Fixed([])}),
-                (EQ, 'While', 1): LoopSpec(invariant=['self.pni == 0 or self.pni == 1', 'len(data) >= 1'],
+                (EQ, 'While', 1): LoopSpec(invariant=['self.pni == 0 or self.pni == 1', 'len(data) >= 1',
+                                                      'data[0] % 2 != self.pni'],
                                            havoc={'self.pni': Int(), 'data': Bytes(0, None, mutable=True),
                                                   'response': Bytes(0, None, mutable=True),
                                                   'self.clf.sent': Fixed([]), 'self.clf.outcomes': Fixed([]),
